@@ -1,0 +1,20 @@
+//go:build verif
+
+package reader
+
+import (
+	"io"
+
+	"github.com/containerd/stargz-snapshotter/cache"
+)
+
+// Verification hook (build tag "verif" only) for property C01: thin wrappers exposing the
+// per-chunk prefetch step and the cache key function to the harness under /verif. No behaviour change.
+
+// VerifReadAndCacheC01 runs the real readAndCache for one chunk (what cacheWithReader does per chunk).
+func (vr *VerifiableReader) VerifReadAndCacheC01(id uint32, fr io.Reader, chunkOffset, chunkSize int64, chunkDigest string, opts ...cache.Option) error {
+	return vr.readAndCache(id, fr, chunkOffset, chunkSize, chunkDigest, opts...)
+}
+
+// VerifGenIDC01 is the chunk cache key.
+func VerifGenIDC01(id uint32, offset, size int64) string { return genID(id, offset, size) }
